@@ -82,6 +82,9 @@ def run_history(args):
                 rec.update(pat=pat, listed=[ln for ln in out.split("\n") if ln != ""], ok=(rc == 0 and "error" not in err.lower()), stderr=err[-300:])
             elif k == "delete":
                 real = [idmap[i] for i in o["ids"] if i in idmap]
+                # every other delete also names a row that does not exist, first: exactly the rows named that exist must go
+                if (len(recs) + seed) % 2 == 0:
+                    real = [max([r["id"] for r in before] + [0]) + 1000] + real
                 rc, out, err = sh("history delete " + " ".join(str(x) for x in real))
                 rec.update(ids=real, stderr=err[-300:])
             after = rows_of(hfile)
